@@ -73,7 +73,7 @@ def validate(traces, timeout=1500):
         consts = dict(Labels=set(labels) or {"x"}, InitArms=[], NRows=1000000000, Offsets=Raw("Nat"), WideOffsets=set(), MaxChunk=1000000000,
                       MaxHist=1000000000, MaxDepth=1000000000, MinFit=0, MinArms=0,
                       Ops={"fit", "partial_fit", "add_arm", "remove_arm", "predict", "predict_expectations", "warm_start", "reject"},
-                      RejectKinds={"any"}, QueryRows=Raw("Int"), Quantiles={"q"}, Dev=set())
+                      RejectKinds={"any"}, QueryRows=Raw("Int"), Quantiles={"q"}, EpochOnAdd=False, Dev=set())
         result = tlc.run("TraceLife", consts, init="TInit", next_="TNext", view="TView", constraint=None, invariants=["Done"],
                          workers=1, timeout=timeout, env={"TRACE_FILE": path})
     finally:
